@@ -1319,6 +1319,49 @@ class Sim(object):
         return self._bucket
 
 
+EXERCISED_API = set("""data.get_calendar_date_from_ordinal_date
+data.get_calendar_date_from_week_date data.get_calendar_date_week_date_start
+data.get_days_in_month data.get_days_in_year data.get_days_in_year_range
+data.get_days_since_1_ad data.get_is_leap_year
+data.get_ordinal_date_from_calendar_date data.get_ordinal_date_from_week_date
+data.get_ordinal_date_week_date_start data.get_timepoint_for_now
+data.get_timepoint_from_seconds_since_unix_epoch
+data.get_timepoint_properties_from_seconds_since_unix_epoch
+data.get_week_date_from_calendar_date data.get_week_date_from_ordinal_date
+data.get_weeks_in_year data.iter_months_days timezone.get_local_time_zone
+timezone.get_local_time_zone_format DateTimeOperator.date_diff
+DateTimeOperator.date_diff_format DateTimeOperator.date_format
+DateTimeOperator.date_parse DateTimeOperator.date_shift
+DateTimeOperator.diff_time_point_strs DateTimeOperator.format_duration_str
+DateTimeOperator.get_calendar_mode DateTimeOperator.get_datetime_strftime
+DateTimeOperator.get_datetime_strptime DateTimeOperator.iter_recurrence_str
+DateTimeOperator.process_time_point_str DateTimeOperator.set_calendar_mode
+DateTimeOperator.strftime DateTimeOperator.strptime Calendar.default
+Calendar.set_mode""".split())
+
+
+def api_outside_table():
+    """Public functions of the data / timezone modules and public methods of
+    DateTimeOperator / Calendar that the operation table does not know: new
+    surface is a way around the table, so it is reported."""
+    import inspect
+    from metomi.isodatetime import data, datetimeoper, timezone
+    names = []
+    for mod in (data, timezone):
+        short = mod.__name__.rsplit(".", 1)[1]
+        for n, o in sorted(vars(mod).items()):
+            if n.startswith("_"):
+                continue
+            if (inspect.isfunction(o) or hasattr(o, "__wrapped__")) and (
+                    getattr(o, "__module__", mod.__name__) == mod.__name__):
+                names.append("%s.%s" % (short, n))
+    for cls in (datetimeoper.DateTimeOperator, data.Calendar):
+        for n in sorted(dir(cls)):
+            if not n.startswith("_") and callable(getattr(cls, n)):
+                names.append("%s.%s" % (cls.__name__, n))
+    return sorted(set(names) - EXERCISED_API)
+
+
 def execute(trace, solo=None, alarm=None):
     """Entry point inside a forked child."""
     kernel.import_library()
@@ -1348,7 +1391,8 @@ def execute(trace, solo=None, alarm=None):
             "counters": sim.counters, "sig": sim.sig,
             "states": sorted(sim.states), "stats": stats,
             "fills": [list(f) for f in fills],
-            "audit_results": sim.audit_results}
+            "audit_results": sim.audit_results,
+            "uncovered_api": api_outside_table() if solo is None else []}
 
 
 def audit_public_call(mode, fn_name, args):
@@ -1616,7 +1660,8 @@ def check_trace_full(trace, alarm=None):
                                    "raise", "scratch")) for s in inter["sig"])
     return violations, {
         "counters": counters, "digest": dig, "sig": sig,
-        "nontrivial": nontrivial, "states": inter["states"]}
+        "nontrivial": nontrivial, "states": inter["states"],
+        "uncovered_api": inter.get("uncovered_api", [])}
 
 
 def check_trace(trace):
@@ -1643,7 +1688,8 @@ def run_job(job):
     violations, info = check_trace_full(trace)
     res = {"index": "%s:%s" % (job[0], job[2]), "counters": info["counters"],
            "digest": info["digest"],
-           "sets": {"states": info["states"]},
+           "sets": {"states": info["states"],
+                    "uncovered_api": info.get("uncovered_api", [])},
            "violations": [dict(v, job=list(job)) for v in violations]}
     res["counters"]["runs." + job[0]] = 1
     if info["nontrivial"]:
@@ -1697,6 +1743,13 @@ def jobs_for(tier, seed):
         # generation: no library code is touched)
         rand.sort(key=lambda job: -len(make_trace(job)["steps"]))
     return jobs + rand
+
+
+def extra_coverage(agg):
+    return {"public_api_not_in_operation_table": sorted(
+        agg.sets.get("uncovered_api", ())),
+        "memo_table_entries_audited": agg.counters.get(
+            "cache_entries_audited", 0)}
 
 
 RULE = (
